@@ -288,7 +288,7 @@ func NewService(cfg *v1.ServerConfig) (*Service, error) {
 		address := net.JoinHostPort(cfg.ProxyBindAddr, strconv.Itoa(cfg.VhostHTTPPort))
 		server := &http.Server{
 			Addr:              address,
-			Handler:           rp,
+			Handler:           rp.Handler(),
 			ReadHeaderTimeout: 60 * time.Second,
 		}
 		var l net.Listener
